@@ -40,6 +40,10 @@ type Oracle struct {
 	Rounds      int      // rounds made by the node's own production loop
 	FaultRounds int      // ... in which the sequencing layer was asked and had nothing to build from (error of any class, no batch)
 	Halts       []string // result class of every round after which the loop ended on its own
+	// the loop ended on its own after a round that failed in the execution layer / on a refused regressed non-empty
+	// batch and the node has not been started again since: the signature and description of that halt
+	haltSig  string
+	haltWhat string
 }
 
 type batchRec struct {
@@ -89,6 +93,9 @@ func eqInts(a, b []int) bool {
 }
 
 func (o *Oracle) afterBoot(idx int, it Item, initOK bool, err error) {
+	if err == nil {
+		o.haltSig, o.haltWhat = "", "" // the node was started again: production resumes (checked by what follows / the probe)
+	}
 	if initOK {
 		o.genesisRoot = RootOf(idx, it)
 		if it.EmptyRoot {
@@ -448,6 +455,13 @@ func (o *Oracle) final() {
 func (o *Oracle) probe(next int) {
 	w := o.w
 	idx := next
+	haltSig, haltWhat := o.haltSig, o.haltWhat // the node is down because its production loop ended on its own
+	if haltSig != "" {
+		defer func() {
+			h, _ := w.Store().Height(w.ctx)
+			o.fail(haltSig, haltWhat+fmt.Sprintf("; the well-formed responses that follow the history find no process; only a restart of the node resumes production (after the restart the store height reached %d)", h))
+		}()
+	}
 	if w.node == nil {
 		obs := w.Run(idx, Item{T: "boot"})
 		idx++
